@@ -199,3 +199,39 @@ PROPS["C14"] = dict(
     rule="a case is (form, map/list, key/index); non-trivial when the queried key is absent, its "
          "int/uint twin is present, or the index is out of range; distinct by program and context",
 )
+
+
+def classify_c01(case, model, why):
+    imp = case[1]
+    if imp.startswith("(crash"):
+        return dict(kind="failing-input", why="compiling this source panicked")
+    if imp.startswith("(bad-errors"):
+        return dict(kind="failing-input", why="reported error list violates the property: " + imp)
+    if imp.startswith("(ok") and model.startswith("(reject"):
+        return dict(kind="failing-input",
+                    why="the implementation accepts a text the grammar model rejects")
+    if imp.startswith("(ok") and model.startswith("(ok"):
+        return dict(kind="no-failing-input-found",
+                    why="accepted with a different tree: correspondence Parser.compile <-> Parser::parse broken (C04/C12/C13 decide whether a property fails)")
+    return dict(kind="no-failing-input-found",
+                why="the implementation rejects a text the model accepts (or the model ran out of fuel): correspondence broken, C01 itself not shown violated")
+
+
+PROPS["C01"] = dict(
+    streams=["C01"],
+    compare=cmp_exact,
+    classify=classify_c01,
+    gate_imports="From Coq Require Import String Ascii.\nFrom Cel.Model Require Import Parser Position.\nFrom Cel.Proofs Require Import ParserProofs.",
+    exhaustive=True,
+    exhaustive_note="all token strings of length <= 4 (thorough: <= 5) over a 16-token alphabet joined "
+                    "by spaces, and of length <= 3 (4) over five further alphabets (operators, calls and "
+                    "macros, number pieces, quote/escape pieces - the last two joined without "
+                    "separator so that maximal munch decides); plus random characters, random token "
+                    "sequences, generated valid expressions and their single-token mutations",
+    rule="a case is a source text; non-trivial when it has >= 2 tokens or forces a lexing decision; "
+         "distinct by text; accepted and rejected counted in input_distribution",
+    assumptions=["ANTLR's adaptive prediction and error recovery are not modelled: the model decides "
+                 "acceptance and the accepted tree; which errors are reported is only monitored "
+                 "(non-empty list, non-empty text, positions inside the source)",
+                 "absence of hangs in the runtime is observed (harness timeout), not proved"],
+)
